@@ -383,7 +383,7 @@ func (c *c02) run(jc J2TCase) {
 	} else if jc.Text != nil {
 		text = []byte(*jc.Text)
 	} else {
-		text = []byte(printJX(jc.J, rand.New(rand.NewSource(jc.Seed)), jc.Variant == "b64-escaped", c.prop == "c16" || oneDefectClass(jc.Variant)))
+		text = []byte(printJX(jc.J, rand.New(rand.NewSource(jc.Seed)), jc.Variant == "b64-escaped", c.prop == "c16" || c.prop == "x02" || oneDefectClass(jc.Variant)))
 	}
 	d, err := parseChecked(text)
 	if jc.Unq {
